@@ -131,6 +131,12 @@ func (g *c19Gen) closureBody(c c19Ctx, result bool, recoverIn bool) {
 func (g *c19Gen) stmt(c c19Ctx) {
 	r := g.rng.Intn(100)
 	switch {
+	case r < 7 && c.nest > 0:
+		// a local of the nested block (if body, loop body): the block then runs in a frame of its own
+		g.feat["block-local"] = true
+		v := g.newVar("v")
+		g.line(c.ind, "%s := a + %d", v, 1+g.rng.Intn(5))
+		g.line(c.ind, "a = %s %% 1000", v)
 	case r < 14:
 		g.line(c.ind, "rec(%d, a)", g.newTag())
 	case r < 24:
